@@ -224,6 +224,41 @@ theorem keepTop_keeps_highest [LinearOrder V] (k : Nat) (l : List (Peak α V)) :
       (keepTop (some k) l ++ dropped k l).Perm l :=
   ⟨rfl, rfl, (topk_keeps_highest k l).1, (topk_keeps_highest k l).2.1⟩
 
+/-! ### top-down with ground-truth peaks -/
+
+/-- **gt_peaks_per_frame**: `FindInstancePeaksGroundTruth`'s parse loop over the batch-wide flat list
+of matched instances gives every frame exactly its own matches (NaN-padded / truncated to
+`max_inst`), whatever the counts of the frames before it. -/
+theorem gt_peaks_per_frame {τ : Type} (maxInst : Nat) (ms : List (List τ)) :
+    gtPeaks maxInst ms = ms.map (gtPad maxInst) :=
+  gtPeaks_eq maxInst ms
+
+theorem gt_peaks_append {τ : Type} (maxInst : Nat) (m₁ m₂ : List (List τ)) :
+    gtPeaks maxInst (m₁ ++ m₂) = gtPeaks maxInst m₁ ++ gtPeaks maxInst m₂ := by
+  simp [gt_peaks_per_frame]
+
+theorem gt_peaks_perm {τ : Type} (maxInst : Nat) {m₁ m₂ : List (List τ)} (p : m₁.Perm m₂) :
+    (gtPeaks maxInst m₁).Perm (gtPeaks maxInst m₂) := by
+  simp only [gt_peaks_per_frame]
+  exact p.map _
+
+/-- nothing is invented: the non-NaN rows of a frame are a prefix of its own matches, all of them
+when they fit -/
+theorem gt_pad_rows {τ : Type} (maxInst : Nat) (m : List τ) :
+    (gtPad maxInst m).filterMap id = m.take maxInst ∧ (gtPad maxInst m).length = maxInst := by
+  unfold gtPad
+  split
+  · rename_i h
+    refine ⟨?_, by simp; omega⟩
+    rw [List.filterMap_append, filterMap_id_map_some, filterMap_id_replicate_none, List.append_nil,
+      List.take_of_length_le (by omega)]
+  · rename_i h
+    refine ⟨filterMap_id_map_some _, by simp; omega⟩
+
+example : gtPeaks 3 [[10], [], [20, 21, 22], [30, 31]]
+    = [[some 10, none, none], [none, none, none], [some 20, some 21, some 22], [some 30, some 31, none]] := by
+  decide
+
 /-! ### network mode -/
 
 /-- **forward_mode_eval**: a wrapper that forces eval mode runs the network in eval mode whatever
@@ -268,11 +303,17 @@ theorem topdown_mode_per_frame {W S F : Type} [LT V] [DecidableLT V]
   rw [centroidcrop_per_frame, forward_mode_eval net stats cur w batch s₀]
   simp only [hz, List.map_map, List.filterMap_map, Function.comp_def]
 
-/-- the repaired wrappers all force eval mode; as coded only top-down does -/
-theorem forcesEval_fixed (k : Kind) : forcesEvalFixed k = true := rfl
-theorem forcesEval_asIs_topdown : forcesEvalAsIs .topdown = true := rfl
+/-- at HEAD every wrapper forces eval mode (so `forward_mode_eval` applies to all three models) -/
+theorem forcesEval_all (k : Kind) : forcesEval k = true := rfl
 
-/-- **as coded the property is false for single-instance and bottom-up** (F-C12): without forcing
+/-- hence, for every model kind, call history and batch: eval-mode per-frame outputs, weights untouched -/
+theorem forward_mode_eval_head {W S F O : Type} (k : Kind) (net : Net W S F O) (stats : List F → S) (cur : Mode)
+    (w : W) (batch : List F) (s₀ : S) :
+    netForward net stats (forcesEval k) cur w batch = (batch.map (net.run Mode.eval w s₀), w) :=
+  forward_mode_eval net stats cur w batch s₀
+
+/-- **regression record (F-C12, before dc60a97): the property was false for single-instance and
+bottom-up**: without forcing
 eval mode a network left in train mode gives a frame a different output in a batch than alone, and
 predicting moves the weights.  Witness: `run train w σ f = f + σ`, `σ` = batch sum, batch `[1, 2]`. -/
 theorem forward_mode_asIs_counterexample :
@@ -284,7 +325,7 @@ theorem forward_mode_asIs_counterexample :
     (netForward net List.sum (forcesEvalAsIs .single) Mode.train 0 [1, 2]).1 = [4, 5] ∧
     (netForward net List.sum (forcesEvalAsIs .single) Mode.train 0 [1]).1 = [2] ∧
     (netForward net List.sum (forcesEvalAsIs .single) Mode.train 0 [1, 2]).2 = 3 ∧
-    (netForward net List.sum (forcesEvalFixed .single) Mode.train 0 [1, 2]) = ([1, 2], 0) := by
+    (netForward net List.sum (forcesEval .single) Mode.train 0 [1, 2]) = ([1, 2], 0) := by
   decide
 
 /-! ### non-vacuity / concrete instances -/
